@@ -11,7 +11,9 @@ package cluster
 //   - stream "purge": caches.Purge / caches.PurgeLocal / caches.PurgeAll on the node; the real
 //     path caches.purge → go OnPurge → BroadcastCacheFlush → ListActiveMembers → SendCacheFlush
 //     posts to the peers, which record what they receive (and answer 200 / 500 / 401 / hang up;
-//     some rows point at a dead port). Rows for the node itself, for inactive / removed / oddly
+//     some rows point at a dead port; in a few cases a peer HOLDS the request — for longer than the
+//     sender's 5 s timeout, or several peers for a while each so that the holds add up to more than
+//     5 s — before peers that joined later: those must still get their request). Rows for the node itself, for inactive / removed / oddly
 //     spelled states and for other clusters point at LIVE recorders, so a request that must not
 //     be sent is seen.
 //   - every recorded request is then driven, unchanged (all headers and the body as sent), through
@@ -69,7 +71,7 @@ type c29Row struct {
 	ID     int    `json:"id"`
 	Name   int    `json:"name"`   // index into c29Names (1..)
 	State  string `json:"state"`  // text of the state column
-	Beh    string `json:"beh"`    // ok | 500 | 401 | hangup | dead
+	Beh    string `json:"beh"`    // ok | 500 | 401 | hangup | dead | hold<ms> (answers 200 after <ms> milliseconds)
 	Joined int    `json:"joined"` // ordering key for joined_at
 }
 
@@ -144,7 +146,20 @@ func (p *c29Peer) ServeHTTP(w http.ResponseWriter, r *http.Request) {
 		CT: r.Header.Get("Content-Type"), Hdr: r.Header.Clone(), Body: body})
 	c29mu.Unlock()
 
-	switch p.beh.Load().(string) {
+	beh := p.beh.Load().(string)
+
+	if ms, ok := c29HoldMs(beh); ok {
+		// a slow peer: it has the request (recorded above) and sits on it. The real time is spent
+		// here: the production code offers no way to shorten its 5 s timeout.
+		select {
+		case <-r.Context().Done(): // the sender gave up and closed the connection
+		case <-time.After(time.Duration(ms) * time.Millisecond):
+		}
+
+		beh = "ok"
+	}
+
+	switch beh {
 	case "500":
 		w.WriteHeader(http.StatusInternalServerError)
 	case "401":
@@ -252,6 +267,17 @@ func c29CachingActive() bool {
 	return ok
 }
 
+// c29HoldMs: behaviour "hold<ms>" = the peer answers 200 only after <ms> milliseconds.
+func c29HoldMs(beh string) (int, bool) {
+	if !strings.HasPrefix(beh, "hold") {
+		return 0, false
+	}
+
+	ms, err := strconv.Atoi(beh[4:])
+
+	return ms, err == nil && ms >= 0
+}
+
 func c29NodeName(id int) string { return "n" + strconv.Itoa(id) }
 
 func c29NodeNum(s string) int {
@@ -324,9 +350,13 @@ func (cs *c29Case) rowsField() string {
 		return "-"
 	}
 
-	parts := make([]string, 0, len(cs.Rows))
-	for _, r := range cs.Rows {
-		parts = append(parts, fmt.Sprintf("%d:%d:%s:%s", r.ID, r.Name, c29b(r.State == "active"), c29b(r.Beh != "dead")))
+	// in join order (ORDER BY joined_at), with what each row's endpoint does
+	rows := append([]c29Row(nil), cs.Rows...)
+	sort.SliceStable(rows, func(i, j int) bool { return rows[i].Joined < rows[j].Joined })
+
+	parts := make([]string, 0, len(rows))
+	for _, r := range rows {
+		parts = append(parts, fmt.Sprintf("%d:%d:%s:%s", r.ID, r.Name, c29b(r.State == "active"), r.Beh))
 	}
 
 	return strings.Join(parts, ",")
@@ -513,6 +543,29 @@ func (cs *c29Case) expectedDest(notify bool) (live []int, dead int, silent bool)
 	return live, dead, false
 }
 
+// heldBefore: for how many milliseconds do the active peers that joined before peer d hold their requests
+// (each capped by the sender's 5 s limit)? Decided on the case specification alone.
+func (cs *c29Case) heldBefore(d int) int {
+	var me *c29Row
+
+	for i := range cs.Rows {
+		if cs.Rows[i].ID == d {
+			me = &cs.Rows[i]
+		}
+	}
+
+	total := 0
+
+	for _, r := range cs.Rows {
+		if ms, ok := c29HoldMs(r.Beh); ok && me != nil && r.Joined < me.Joined && r.ID != cs.Self && r.ID != d &&
+			r.State == "active" && r.Name == cs.Cluster {
+			total += min(ms, 5000)
+		}
+	}
+
+	return total
+}
+
 func (cs *c29Case) peerRows() int {
 	n := 0
 
@@ -560,6 +613,10 @@ func (e *c29Env) judge(cs *c29Case, c int, notify bool, ms []c29Msg) {
 	if !silent {
 		for _, d := range live {
 			switch {
+			case count[d] == 0 && cs.heldBefore(d) > 0:
+				e.fail("peer-starved-by-slow-peer", fmt.Sprintf("an active peer whose endpoint is up received no flush request for a purge: peers that joined before it held "+
+					"their requests for %d ms in total; the 5 s limit must apply to each peer separately, a slow peer must not cost the others their flush",
+					cs.heldBefore(d)), cs, c29ShowMsgs(ms), fmt.Sprintf("one request to n%d", d))
 			case count[d] == 0:
 				e.fail("peer-skipped", "an active peer received no flush request for a purge", cs, c29ShowMsgs(ms), fmt.Sprintf("one request to n%d", d))
 			case count[d] > 1:
@@ -999,6 +1056,53 @@ func c29GenPurgeCase(r *rand.Rand) c29Case {
 	return cs
 }
 
+// c29GenSlowCase: a random table in which one active peer of the node holds its request beyond the sender's
+// timeout (or two hold it for 2.6 s each), at a random place in the join order; one purge. Costs ~5 s.
+func c29GenSlowCase(r *rand.Rand) c29Case {
+	cs := c29Case{Self: r.Intn(14), Cluster: 1 + r.Intn(len(c29Names)-1), DB: true, Hook: true, On: true, Replay: true}
+	cs.Rows = c29GenRows(r, cs.Self, cs.Cluster, 6)
+
+	for i := range cs.Rows {
+		cs.Rows[i].Joined += 10 // room for rows that join first
+	}
+
+	free := []int{}
+
+	for id := 0; id < 14; id++ {
+		used := id == cs.Self
+
+		for _, row := range cs.Rows {
+			used = used || row.ID == id
+		}
+
+		if !used {
+			free = append(free, id)
+		}
+	}
+
+	// two healthy active peers and the slow one(s), placed anywhere in the join order
+	extra := []string{"ok", "ok", "hold9000"}
+	if r.Intn(3) == 0 {
+		extra = []string{"ok", "ok", "hold2600", "hold2600"}
+	}
+
+	for k, beh := range extra {
+		if len(cs.Rows) >= len(c29peers) || k >= len(free) {
+			break
+		}
+
+		cs.Rows = append(cs.Rows, c29Row{ID: free[k], Name: cs.Cluster, State: "active", Beh: beh})
+	}
+
+	for i, k := range r.Perm(len(cs.Rows)) {
+		cs.Rows[i].Joined = k * 7
+	}
+
+	cs.Ops = []c29Op{{Kind: "purge", Cache: c29CacheIDs[r.Intn(len(c29CacheIDs))], Row: r.Intn(8)}}
+
+	return cs
+}
+
 var c29HopValues = []int{-7, -1, 0, 1, 1, 1, 2, 3, 4, 4, 5, 5, 6, 100, 1 << 40}
 
 func c29GenFlushSpec(r *rand.Rand, cs *c29Case) *c29FlushSpec {
@@ -1103,6 +1207,23 @@ func c29Corpus() []c29Case {
 	c = full
 	c.Rows = []c29Row{act(1, 1, "500", 0), act(2, 1, "dead", 1), act(3, 1, "hangup", 2), act(4, 1, "401", 3), act(5, 1, "ok", 4), act(0, 1, "ok", 5)}
 	c.Ops = []c29Op{{Kind: "purge", Cache: 3}}
+	out = append(out, c)
+
+	// a SLOW peer first in join order: it takes the request and does not answer within the sender's 5 s.
+	// The limit is per peer: everybody after it (an erroring one, a dead one, healthy ones) still gets
+	// exactly one request. (~5 s of real time: the production timeout cannot be shortened.)
+	c = full
+	c.Self = 2
+	c.Rows = []c29Row{act(1, 1, "hold9000", 0), act(2, 1, "ok", 1), act(3, 1, "ok", 2), act(4, 1, "500", 3), act(5, 1, "dead", 4), act(6, 1, "ok", 5),
+		act(7, 2, "ok", 6), {ID: 8, Name: 1, State: "inactive", Beh: "ok", Joined: 7}, act(9, 1, "ok", 8)}
+	c.Ops = []c29Op{{Kind: "purge", Cache: 5}}
+	out = append(out, c)
+
+	// three peers that each answer well within the limit, but whose delays add up to more than 5 s,
+	// before the healthy ones (~5.3 s of real time)
+	c = full
+	c.Rows = []c29Row{act(0, 1, "ok", 0), act(1, 1, "hold1750", 1), act(2, 1, "hold1750", 2), act(3, 1, "hold1750", 3), act(4, 1, "ok", 4), act(5, 1, "ok", 5)}
+	c.Ops = []c29Op{{Kind: "purge", Cache: 7}}
 	out = append(out, c)
 
 	// inactive, removed, oddly spelled and foreign rows; own row marked removed
@@ -1284,6 +1405,19 @@ func TestVerifC29(t *testing.T) {
 	for i, n := 0, verifh.N(400, 5000); i < n; i++ {
 		cs := c29GenPurgeCase(rp)
 		e.run(&cs)
+	}
+
+	// slow peers at random places (real seconds each: thorough tier only; the corpus has the two fixed ones)
+	rs := verifh.Rand(292929)
+	nslow := 0
+	if verifh.Thorough() {
+		nslow = 2 // not verifh.N: VERIF_CASES must not multiply cases that cost 5 s each
+	}
+
+	for i := 0; i < nslow; i++ {
+		cs := c29GenSlowCase(rs)
+		e.run(&cs)
+		e.stats.Inc("slowcases")
 	}
 
 	rf := verifh.Rand(2929)
